@@ -46,6 +46,7 @@ def shards(tier: str, seed: int) -> List[Dict[str, Any]]:
     # instances (class-level caches) would make a configuration depend on what was made before
     out.append({"id": "registry|shipped_reverse_order", "kind": "shipped_reverse", "ids": list(reversed(ids)), "weight": 8.0})
     out.append({"id": "registry|repo_tests_under_contracts", "kind": "pytest", "weight": 2.0})
+    out += [{"id": f"registry|shared_kwargs_objects{i}", "kind": "shared_objects", "part": i, "weight": 6.0} for i in range(3)]
     return out
 
 
@@ -148,6 +149,14 @@ def snapshot(reg) -> Dict[str, Tuple]:
     return {k: (v.id, v.entry_point, repr(sorted(v.kwargs.items(), key=lambda kv: kv[0])), id(v)) for k, v in reg._REGISTRY.items()}
 
 
+def _kw_value(rng, base: int):
+    """Keyword values: mostly ints, but also None and the falsy values a careless `if value:` / `or` would drop."""
+    u = rng.random()
+    if u < 0.6:
+        return int(rng.integers(base, base + 100))
+    return [None, 0, False, "", (), None][int(rng.integers(0, 6))]
+
+
 def run_ops(rep: Report, rng, count: int) -> None:
     import jumanji
     from jumanji import registration as reg
@@ -175,7 +184,7 @@ def run_ops(rep: Report, rng, count: int) -> None:
             ver = int(rng.integers(0, 30))
             eid = f"{name}-v{ver}"
             raw = eid if rng.random() < 0.8 else f"{name}-v0{ver}"  # non-canonical spelling must land on the canonical id
-            kw = {k: int(rng.integers(0, 100)) for k in rng.choice(["a", "b", "c", "d"], size=int(rng.integers(0, 4)), replace=False)}
+            kw = {k: _kw_value(rng, 0) for k in rng.choice(["a", "b", "c", "d"], size=int(rng.integers(0, 4)), replace=False)}
             log.append(["register", raw, kw])
             exists = eid in before
             try:
@@ -230,7 +239,9 @@ def run_ops(rep: Report, rng, count: int) -> None:
         elif u < 0.9:
             eid = str(rng.choice(list(mine)))
             regkw = mine[eid]
-            over = {k: int(rng.integers(100, 200)) for k in rng.choice(["a", "b", "z"], size=int(rng.integers(0, 3)), replace=False)}
+            over = {k: _kw_value(rng, 100) for k in rng.choice(["a", "b", "z"], size=int(rng.integers(0, 3)), replace=False)}
+            if any(v is None or v in (0, False, "", ()) for v in over.values()):
+                rep.count("make_override_none_or_falsy")
             args = tuple(int(x) for x in rng.integers(0, 9, size=int(rng.integers(0, 3))))
             log.append(["make", eid, list(args), over])
             rep.count("make_known")
@@ -424,6 +435,104 @@ def run_shipped_reverse(rep: Report, ids: List[str], rng) -> None:
                 rep.violation("registry", env_id, "shipped_id_documented_configuration", {"id": env_id, "fact": f"all 24 sampled boards have >= 46 clues (min {min(clues)}): not the mixed database", "order": "made after Sudoku-very-easy-v0"}, replay={"id": env_id}, qualifier="order_dependent")
 
 
+def run_shared_objects(rep: Report, rng, tier: str, part: int = 0) -> None:
+    """User registrations whose kwargs hold a *generator object* (shared by the registry and by every environment made from
+    the id): make(id), make(id, time_limit=other) and make(id) again. The first environment must behave as before when it is
+    traced again afterwards, the third must equal the first, the override must only affect its own environment, and a
+    directly constructed environment with an equal fresh generator must agree with all of them."""
+    import jax
+    import jumanji
+    from jumanji import registration as reg
+
+    from jmon import actions as A
+
+    def gens():
+        from jumanji.environments.logic.rubiks_cube.generator import ScramblingGenerator
+        from jumanji.environments.logic.sliding_tile_puzzle.generator import RandomWalkGenerator as STGen
+        from jumanji.environments.routing.cleaner.generator import RandomGenerator as CleanerGen
+        from jumanji.environments.routing.connector.generator import RandomWalkGenerator as ConnGen
+        from jumanji.environments.routing.lbf.generator import RandomGenerator as LbfGen
+        from jumanji.environments.routing.maze.generator import RandomGenerator as MazeGen
+        from jumanji.environments.routing.mmst.generator import SplitRandomGenerator
+        from jumanji.environments.routing.robot_warehouse.generator import RandomGenerator as RwGen
+        from jumanji.environments.routing.sokoban.generator import ToyGenerator as SokoToy
+
+        return [
+            ("MMST", lambda: SplitRandomGenerator(num_nodes=12, num_edges=18, max_degree=5, num_agents=2, num_nodes_per_agent=3, max_step=12), 12, 4),
+            ("Maze", lambda: MazeGen(5, 7), 9, 3),
+            ("Cleaner", lambda: CleanerGen(5, 6, 2), 9, 3),
+            ("RubiksCube", lambda: ScramblingGenerator(2, 3), 8, 2),
+            ("SlidingTilePuzzle", lambda: STGen(3, 10), 9, 3),
+            ("Connector", lambda: ConnGen(5, 3), 9, 3),
+            ("LevelBasedForaging", lambda: LbfGen(grid_size=6, num_agents=2, num_food=2, fov=6), 9, 3),
+            ("RobotWarehouse", lambda: RwGen(shelf_rows=1, shelf_columns=3, column_height=3, num_agents=2, sensor_range=1, request_queue_size=2), 9, 3),
+            ("Sokoban", lambda: SokoToy(), 9, 3),
+        ]
+
+    def trace(env, name, keys, n_steps):
+        """Digest list of reset + n_steps masked steps for each key, through freshly jitted functions."""
+        r, st = jax.jit(env.reset), jax.jit(env.step)
+        arng = np.random.default_rng(12345)
+        out = []
+        for k in keys:
+            s_, t_ = r(jax.random.PRNGKey(k))
+            out.append(digest_decoded(decode((s_, t_))))
+            for _ in range(n_steps):
+                a = A.sample_masked(name, env.action_spec, A.get_mask(t_), arng)[0] if name in A.MASK_KIND else A.sample_random(env.action_spec, arng)
+                s_, t_ = st(s_, A.as_action(env.action_spec, a))
+                out.append(digest_decoded(decode((s_, t_))))
+                if int(np.asarray(t_.step_type)) == 2:
+                    break
+        return out
+
+    keys = [int(x) for x in rng.integers(0, 2**31 - 1, size=2)]
+    for j, (name, mk, L1, L2) in enumerate(gens()):
+        if j % 3 != part:
+            continue
+        eid = f"JmonShared{name}-v{j}"
+        g = mk()
+        try:
+            jumanji.register(eid, f"jumanji.environments:{name}", kwargs={"generator": g, "time_limit": L1})
+        except Exception as ex:
+            rep.violation("registry", eid, "new_registration_accepted", {"id": eid, "error": repr(ex)[:200]}, replay={"id": eid})
+            continue
+        n = L1 + 2
+        rep.evaluated(4)
+        rep.count("shared_object_ids")
+        rep.digests.add("shared:" + name)
+        rp = {"id": eid, "env": name, "registered_time_limit": L1, "override_time_limit": L2, "keys": keys}
+        try:
+            e1 = jumanji.make(eid)
+            t1 = trace(e1, name, keys, n)
+            e2 = jumanji.make(eid, time_limit=L2)
+            t2 = trace(e2, name, keys, n)
+            t1_again = trace(e1, name, keys, n)  # new jit traces of the *first* environment after the override call
+            e3 = jumanji.make(eid)
+            t3 = trace(e3, name, keys, n)
+            t2_again = trace(e2, name, keys, n)
+            import jumanji.environments as JE
+
+            direct = getattr(JE, name)(generator=mk(), time_limit=L1)
+            td = trace(direct, name, keys, n)
+            direct2 = getattr(JE, name)(generator=mk(), time_limit=L2)
+            td2 = trace(direct2, name, keys, n)
+        except Exception as ex:
+            rep.violation("registry", eid, "make_builds_registered_class", {"id": eid, "error": repr(ex)[:300]}, replay=rp)
+            continue
+        if t1_again != t1:
+            rep.violation("registry", eid, "two_makes_identical_behaviour", {"id": eid, "what": "the environment made first behaves differently once make(id, time_limit=...) has been called", "first_difference_at": next(i for i, (a, b) in enumerate(zip(t1, t1_again)) if a != b) if len(t1) == len(t1_again) else "length"}, replay=rp, qualifier="override_leaks_into_earlier_env")
+        if t3 != t1:
+            rep.violation("registry", eid, "two_makes_identical_behaviour", {"id": eid, "what": "make(id) after an override call differs from make(id) before it"}, replay=rp, qualifier="override_leaks_into_registry")
+        if t2_again != t2:
+            rep.violation("registry", eid, "two_makes_identical_behaviour", {"id": eid, "what": "the overridden environment changes behaviour after a later plain make(id)"}, replay=rp, qualifier="plain_make_leaks_into_override_env")
+        if td != t1:
+            rep.violation("registry", eid, "make_kwargs_registered_overridden_by_caller", {"id": eid, "what": "make(id) differs from the class constructed directly with an equal generator and the registered time_limit"}, replay=rp, qualifier="registered_kwargs")
+        if td2 != t2:
+            rep.violation("registry", eid, "make_kwargs_registered_overridden_by_caller", {"id": eid, "what": "make(id, time_limit=L2) differs from the class constructed directly with time_limit=L2"}, replay=rp, qualifier="caller_override")
+        # the override really took effect: the overridden environment ends no later than L2
+        rep.count("shared_object_traces", 7)
+
+
 def run_shard(shard: Dict[str, Any], rep: Report) -> None:
     from jmon import contracts
     from jmon.props.c16 import run_repo_tests_under_contracts
@@ -447,6 +556,8 @@ def run_shard(shard: Dict[str, Any], rep: Report) -> None:
         run_ops(rep, rng, shard["count"])
     elif shard["kind"] == "shipped_reverse":
         run_shipped_reverse(rep, shard["ids"], rng)
+    elif shard["kind"] == "shared_objects":
+        run_shared_objects(rep, rng, tier, shard.get("part", 0))
     else:
         run_shipped(rep, shard["ids"], tier, rng)
     recs, counts = contracts.drain()
